@@ -589,6 +589,31 @@ func c20Helpers(c *vf.Ctx) {
 				c.Fail(sub, i, "cleanpeeraddrinfo-differs", fmt.Sprintf("got %v want %v", got, want), wit())
 			}
 		})
+		// ToURL of every HTTP address in the list: the host of the URL is the host of the address (an IP address, in
+		// brackets when it is IPv6, or the DNS name as it stands), whatever the other components are
+		for _, l := range labs {
+			if !l.http || strings.HasPrefix(l.source, "/ip6zone/") || strings.HasPrefix(l.source, "/dnsaddr/") {
+				continue
+			}
+			parts := strings.Split(l.source, "/")
+			if len(parts) < 3 {
+				continue
+			}
+			hostWant := parts[2]
+			u, err := maurl.ToURL(l.ma)
+			if err != nil {
+				continue
+			}
+			got := u.Hostname()
+			if ipw := net.ParseIP(hostWant); ipw != nil {
+				if ipg := net.ParseIP(got); ipg == nil || !ipg.Equal(ipw) {
+					c.Fail(sub, i, "tourl-host-differs", fmt.Sprintf("%s -> %s", l.source, u.String()), wit())
+				}
+			} else if got != hostWant || strings.Contains(u.Host, "[") {
+				c.Fail(sub, i, "tourl-host-differs", fmt.Sprintf("%s -> %s", l.source, u.String()), wit())
+			}
+			c.Inc("tourl_hosts_checked")
+		}
 		// MultiaddrsEqual: order-insensitive, multiplicity-sensitive
 		c.Guard(sub, i, wit, func() {
 			a := list()
